@@ -577,6 +577,9 @@ package go_clipper2
 
 //@ lemma setIdentities props C19: forall(a, 0, 2, forall(b, 0, 2, (insideOp(Union, a == 1, b == 1) == (insideOp(Difference, a == 1, b == 1) || insideOp(Intersection, a == 1, b == 1) || insideOp(Difference, b == 1, a == 1))) && !(insideOp(Difference, a == 1, b == 1) && insideOp(Intersection, a == 1, b == 1)) && !(insideOp(Difference, a == 1, b == 1) && insideOp(Difference, b == 1, a == 1)) && !(insideOp(Intersection, a == 1, b == 1) && insideOp(Difference, b == 1, a == 1)) && (insideOp(Xor, a == 1, b == 1) == (insideOp(Union, a == 1, b == 1) && !insideOp(Intersection, a == 1, b == 1))) && (insideOp(Difference, a == 1, b == 1) == ((a == 1) && !insideOp(Intersection, a == 1, b == 1))) && (ite(insideOp(Union, a == 1, b == 1), 1, 0) + ite(insideOp(Intersection, a == 1, b == 1), 1, 0) == a + b)))
 
+// the contribution rule as one predicate: the region membership differs across the edge
+//@ spec contributes(ct ClipType, fr FillRule, pt PathType, wc int, dx int, wc2 int) bool = memberSide(ct, pt, ite(fr == EvenOdd, false, fillW(fr, leftW(wc, dx))), ite(fr == EvenOdd, wc2 != 0, fillW(fr, wc2))) != memberSide(ct, pt, ite(fr == EvenOdd, true, fillW(fr, rightW(wc, dx))), ite(fr == EvenOdd, wc2 != 0, fillW(fr, wc2)))
+
 //@ func clipperBase.isContributingClosed
 //@   props C01 C19
 //@   requires ae != nil && ae.localMin != nil && (ae.windDx == 1 || ae.windDx == -1)
@@ -617,6 +620,24 @@ package go_clipper2
 //@   assert after e2WindCountIs0or1 [transfer-same-type-evenodd] (ae1.localMin.PolyType == ae2.localMin.PolyType && c.fillRule == EvenOdd) ==> (ae1.windCount == old(ae2.windCount) && ae2.windCount == old(ae1.windCount) && ae1.windCount2 == old(ae1.windCount2) && ae2.windCount2 == old(ae2.windCount2))
 //@   assert after e2WindCountIs0or1 [transfer-other-type] (ae1.localMin.PolyType != ae2.localMin.PolyType && c.fillRule != EvenOdd) ==> (ae1.windCount2 == old(ae1.windCount2) + ae2.windDx && ae2.windCount2 == old(ae2.windCount2) - ae1.windDx && ae1.windCount == old(ae1.windCount) && ae2.windCount == old(ae2.windCount))
 //@   assert after e2WindCountIs0or1 [transfer-other-type-evenodd] (ae1.localMin.PolyType != ae2.localMin.PolyType && c.fillRule == EvenOdd && (old(ae1.windCount2) == 0 || old(ae1.windCount2) == 1) && (old(ae2.windCount2) == 0 || old(ae2.windCount2) == 1)) ==> (ae1.windCount2 == 1 - old(ae1.windCount2) && ae2.windCount2 == 1 - old(ae2.windCount2) && ae1.windCount == old(ae1.windCount) && ae2.windCount == old(ae2.windCount))
+
+// two closed edges of the same path type that are both outside the solution cross: a new output ring
+// starts at the crossing exactly when the edges, with their updated winding counts, satisfy the
+// contribution rule (C01, C19) - the same table as isContributingClosed, reached by another code path
+//@ spec normW(fr FillRule, w int) int = ite(fr == Positive, w, ite(fr == Negative, -w, absI(w)))
+//@ func clipperBase.intersectEdges variant coldcross
+//@   props C01 C19
+//@   nosafety
+//@   requires ae1 != nil && ae2 != nil && ae1 != ae2 && ae1.localMin != nil && ae2.localMin != nil
+//@   requires !c.hasOpenPaths && ae1.joinWith == JoinNone && ae2.joinWith == JoinNone
+//@   requires (ae1.windDx == 1 || ae1.windDx == -1) && (ae2.windDx == 1 || ae2.windDx == -1)
+//@   requires ae1.outrec == nil && ae2.outrec == nil && ae1.localMin.PolyType == ae2.localMin.PolyType && (ae1.localMin.PolyType == Subject || ae1.localMin.PolyType == Clip)
+//@   requires c.fillRule == EvenOdd || c.fillRule == NonZero || c.fillRule == Positive || c.fillRule == Negative
+//@   requires c.clipType == Intersection || c.clipType == Union || c.clipType == Difference || c.clipType == Xor
+//@   assumes ae1.windCount2 == ae2.windCount2
+//@   ensures [cold-crossing-follows-the-contribution-rule] (normW(c.fillRule, ae1.windCount) == 1 && normW(c.fillRule, ae2.windCount) == 1) ==> ((ae1.outrec != nil) == contributes(c.clipType, c.fillRule, ae1.localMin.PolyType, ae1.windCount, ae1.windDx, ae1.windCount2))
+//@   ensures [cold-crossing-otherwise-stays-cold] !(normW(c.fillRule, ae1.windCount) == 1 && normW(c.fillRule, ae2.windCount) == 1) ==> (ae1.outrec == nil && ae2.outrec == nil)
+//@   ensures [both-or-neither] (ae1.outrec != nil) == (ae2.outrec != nil)
 
 // an open edge that leaves the clip region is detached from its output path on both sides:
 // a finished path must not keep a pointer to an edge that is still in the active list (C09)
@@ -1361,12 +1382,15 @@ package go_clipper2
 //@   requires group != nil
 //@   assumes forall(k, 0, len(group.inPaths), domPath(group.inPaths[k], 29))
 //@   assert after absDelta [delta-sign] (group.endType == Polygon ==> co.groupDelta == ite(group.pathsReversed, -co.delta, co.delta)) && (group.endType != Polygon ==> co.groupDelta == absI(co.delta)) && absDelta == absI(co.groupDelta)
+//@   assert after co.stepsPerRad [arc-direction-follows-the-group-delta] co.stepSin == ite(co.groupDelta < 0, -math.Sin((2 * math.Pi) / stepsPer360), math.Sin((2 * math.Pi) / stepsPer360)) && co.stepCos == math.Cos((2 * math.Pi) / stepsPer360) && co.stepsPerRad == stepsPer360 / (2 * math.Pi)
 
 //@ func ClipperOffset.executeInternal
-//@   props C05 C12
+//@   props C05 C10 C12
 //@   nosafety
 //@   assumes forall(k, 0, len(co.groupList), co.groupList[k] != nil)
 //@   loop 0.0 step [copies-input] len(*co.solution) == old(len(*co.solution)) + 1 && same((*co.solution)[len(*co.solution)-1], path)
+//@   ensures [offsetting-starts-at-half-a-unit] (old(len(co.groupList)) > 0 && absI(delta) >= 0.5) ==> co.mitLimSqr == ite(co.MiterLimit <= 1, 2.0, 2.0 / (co.MiterLimit * co.MiterLimit))
+//@   ensures [below-half-a-unit-nothing-is-configured] (old(len(co.groupList)) > 0 && absI(delta) < 0.5) ==> (co.mitLimSqr == old(co.mitLimSqr) && co.delta == old(co.delta))
 //@   assert after c.reverseSolution [orientation-pairing] c.reverseSolution == (co.ReverseSolution != pathsReversed) && fillRule == ite(pathsReversed, Negative, Positive) && c.preserveCollinear == co.PreserveCollinear
 
 // ---------------------------------------------------------------------------------
@@ -1876,3 +1900,22 @@ package go_clipper2
 //@   ensures [same-side-closed-edges-are-an-error] (old(frontOf(ae1) == frontOf(ae2)) && !openEnd(ae1) && !openEnd(ae2)) ==> (result == nil && !c.succeeded)
 //@   ensures [ring-closed] old(ae1.outrec == ae2.outrec) ==> (result != nil && old(ae1.outrec).pts == result && old(ae1.outrec).frontEdge == nil && old(ae1.outrec).backEdge == nil && ae1.outrec == nil && ae2.outrec == nil)
 //@   ensures [closed-rings-joined] (old(ae1.outrec != ae2.outrec) && !ae1.localMin.IsOpen && old(frontOf(ae1) != frontOf(ae2))) ==> (ae1.outrec == nil && ae2.outrec == nil)
+
+// a new left bound is linked into the active list, and never between two edges that are joined
+//@ func clipperBase.insertLeftEdge
+//@   props C01 C03
+//@   requires ae != nil
+//@   assumes c.actives != ae && forallp(e, Active, e.nextInAEL != ae && e.prevInAEL != ae)
+//@   assumes forallp(e, Active, e.joinWith == JoinRight ==> (e.nextInAEL != nil && e.nextInAEL.joinWith != JoinRight))
+//@   loop 0 invariant [walk] ae2 != nil && ae2 != ae
+//@   ensures [empty-list] old(c.actives) == nil ==> (c.actives == ae && ae.prevInAEL == nil && ae.nextInAEL == nil)
+//@   ensures [linked-in] (ae.prevInAEL == nil ==> c.actives == ae) && (ae.prevInAEL != nil ==> (ae.prevInAEL.nextInAEL == ae && c.actives == old(c.actives))) && (ae.nextInAEL != nil ==> ae.nextInAEL.prevInAEL == ae)
+//@   ensures [not-between-a-joined-pair] ae.prevInAEL != nil ==> ae.prevInAEL.joinWith != JoinRight
+//@   ensures [join-state-untouched] forallp(e, Active, e.joinWith == old(e.joinWith))
+
+// the geometric order test is kept opaque here (its own safety needs vertex-ring invariants that are
+// not stated); insertLeftEdge's list surgery does not depend on which answer it gives
+//@ func isValidAelOrder
+//@   props C01
+//@   pure
+//@   nosafety
